@@ -19,8 +19,8 @@ PY
 )
   res=""
   for c in $checks; do
-    r=$(tools/try_mutant.sh /verif/$d/patch.diff $c 2>&1 | grep -E "exit [0-9]|HARNESS|BUILD-FAILED|does not apply" | tail -1)
-    case "$r" in *"exit 1"*) v=detected;; *"exit 2"*|*HARNESS*) v=inconclusive;; *BUILD*) v=build-failed;; *"does not apply"*) v=patch-does-not-apply;; *) v=MISSED;; esac
+    r=$(tools/try_mutant.sh /verif/$d/patch.diff $c 2>&1 | grep -E "VIOLATION|exit [0-9]|HARNESS|BUILD-FAILED|does not apply" | sort -u | tr '\n' ' ')
+    case "$r" in *VIOLATION*|*"exit 1"*) v=detected;; *"exit 2"*|*HARNESS*) v=inconclusive;; *BUILD*) v=build-failed;; *"does not apply"*) v=patch-does-not-apply;; *) v=MISSED;; esac
     res="$res $c:$v"
     [ "$v" = detected ] && break
   done
